@@ -90,6 +90,10 @@ def run(tier, seed):
                                               "--flushers", str(3 + i % 3), "--fails", str([3, 3, 3, 4][i % 4]), "--cache", str(i % 2),
                                               "--cpus", str([16, 8, 16, 4][i % 4])]))
 
+    for i in range(3 if tier == "quick" else 10):   # the device never recovers: close must still return (bounded final-flush retries)
+        jobs.append(("deadclose%d" % i, "crash", ["--seed", str(rng.randrange(1 << 30)), "--steps", "25", "--cpus", str([2, 4, 2][i % 3]), "--blocks", "44",
+                                                  "--keys", "4", "--maximages", "0", "--end", "drop", "--forcesync", "1", "--faultat", str([0, 30, 12][i % 3]),
+                                                  "--faultmode", "3", "--noheal", "1", "--ttl", "1"]))
     for i in range(2 if tier == "quick" else 8):   # many concurrent flush() callers over 8 and 4 workers, healthy device
         jobs.append(("crowd%d" % i, "conc", ["--mode", "storm", "--seed", str(rng.randrange(1 << 30)), "--rounds", "80",
                                               "--flushers", str([12, 16][i % 2]), "--fails", "0", "--cache", "0",
